@@ -126,6 +126,15 @@ func runTestCasesForServer(
 		clientCreds = nil
 	}
 
+	// Start reading the response before writing the request: a server that answers (or
+	// dies) without reading its input must not leave us blocked in the write while its
+	// output sits unread in the pipe.
+	var resp conformancev1.ServerCompatResponse
+	respErr := make(chan error, 1)
+	go func() {
+		respErr <- internal.ReadDelimitedMessage(serverProcess.stdout, &resp, "server", serverResponseTimeout, maxServerResponseSize)
+	}()
+
 	// Write server request.
 	err = internal.WriteDelimitedMessage(serverProcess.stdin, &conformancev1.ServerCompatRequest{
 		Protocol:      meta.protocol,
@@ -147,9 +156,7 @@ func runTestCasesForServer(
 	}
 
 	// Read response.
-	var resp conformancev1.ServerCompatResponse
-	err = internal.ReadDelimitedMessage(serverProcess.stdout, &resp, "server", serverResponseTimeout, maxServerResponseSize)
-	if err != nil {
+	if err := <-respErr; err != nil {
 		results.failedToStart(testCases, fmt.Errorf("error reading server response: %w", err))
 		return
 	}
